@@ -100,7 +100,32 @@ def label(rng, n, mode):
         base = 2 ** 31 + rng.randrange(10 ** 6)
         ids = rng.sample(range(base, base + 5 * n + 10), n)
         return ids
+    if mode in PATTERN_MODES:
+        base = 1 if mode.startswith('dense1') or mode in ('adjacent_swap', 'reversed') else \
+            rng.randrange(2, 500)
+        ids = list(range(base, base + n))
+        if mode in ('dense1_ends', 'denseA_ends'):
+            mid = ids[1:-1]
+            rng.shuffle(mid)
+            if n > 3 and mid == ids[1:-1]:
+                mid[0], mid[-1] = mid[-1], mid[0]
+            ids = ids[:1] + mid + ids[-1:]
+        elif mode == 'adjacent_swap' and n >= 2:
+            k = rng.randrange(0, n - 1) if n < 4 else rng.randrange(1, n - 2)
+            ids[k], ids[k + 1] = ids[k + 1], ids[k]
+        elif mode == 'reversed':
+            ids.reverse()
+        elif mode == 'one_moved' and n >= 3:
+            x = ids.pop(rng.randrange(1, n - 1))
+            ids.insert(rng.randrange(1, n - 1), x)
+        return ids
     raise AssertionError(mode)
+
+
+# ids given directly in STORAGE order (no further shuffling): dense ranges that are
+# almost sorted -- ends in place + interior shuffled, two neighbours swapped,
+# reversed, one id moved
+PATTERN_MODES = ('dense1_ends', 'denseA_ends', 'adjacent_swap', 'reversed', 'one_moved')
 
 
 def finalize(rng, pts, elems, opts):
@@ -122,13 +147,14 @@ def finalize(rng, pts, elems, opts):
         coords.append([rng.randrange(-5, 6) for _ in range(3)])
     nid = label(rng, n + n_extra, opts['node_ids'])
     order = list(range(n + n_extra))
-    if opts.get('shuffle_nodes'):
+    if opts.get('shuffle_nodes') and opts['node_ids'] not in PATTERN_MODES:
         rng.shuffle(order)
     node_ids = [nid[i] for i in order]
     node_coords = [coords[i] for i in order]
     # elements
     eid = label(rng, len(elems), opts['elem_ids'])
-    if opts.get('interleave', True) and opts['elem_ids'] != 'seq':
+    pattern_elems = opts['elem_ids'] in PATTERN_MODES
+    if opts.get('interleave', True) and opts['elem_ids'] != 'seq' and not pattern_elems:
         rng.shuffle(eid)
     blocks = {}
     expected = {}
@@ -140,7 +166,9 @@ def finalize(rng, pts, elems, opts):
     out_blocks = []
     unsorted_block = False
     for ty, rows in blocks.items():
-        if opts.get('shuffle_elems'):
+        if pattern_elems:
+            pass                       # keep the pattern as the storage order
+        elif opts.get('shuffle_elems'):
             rng.shuffle(rows)
         else:
             rows.sort()
@@ -319,8 +347,8 @@ def random_opts(rng, jitter_ok=True):
         'matrix': rng.choice(mats),
         't': [rng.randrange(-2, 3) for _ in range(3)],
         'jitter': jitter,
-        'node_ids': rng.choice(['seq', 'sparse', 'unsorted', 'unsorted', 'large']),
-        'elem_ids': rng.choice(['seq', 'sparse', 'unsorted', 'large']),
+        'node_ids': rng.choice(['seq', 'sparse', 'unsorted', 'unsorted', 'large'] + list(PATTERN_MODES)),
+        'elem_ids': rng.choice(['seq', 'sparse', 'unsorted', 'large'] + list(PATTERN_MODES)),
         'shuffle_nodes': rng.random() < 0.6,
         'shuffle_elems': rng.random() < 0.5,
         'extra_nodes': rng.choice([0, 0, 1, 3]),
